@@ -211,32 +211,30 @@ func (c *chunkedSyncClient) SyncStreamingParts(ctx context.Context, parts []queu
 	}
 
 	duration := time.Since(startTime)
-	success := false
 
-	if finalResp != nil && finalResp.GetSyncResult() != nil {
-		result := finalResp.GetSyncResult()
-		success = result.Success
-	}
-	if !success && len(failedParts) < len(parts) {
-		success = true
-	}
-
-	if success {
-		if c.metrics != nil {
-			c.metrics.totalFinished.Inc(1, operation, group, c.node, c.remoteRole, c.remoteTier)
-			c.metrics.totalLatency.Observe(duration.Seconds(), operation, group, c.node, c.remoteRole, c.remoteTier)
-			c.metrics.sentBytes.Inc(float64(totalBytesSent), operation, group, c.node, c.remoteRole, c.remoteTier)
-		}
-		c.migFinished(operation, group, duration, totalBytesSent)
-	} else {
+	// Only a positive SyncResult from the receiver means the parts are installed there.
+	// A negative or missing result is an error, so that the caller keeps every part
+	// for a retry instead of dropping it from its queue.
+	if finalResp == nil || finalResp.GetSyncResult() == nil || !finalResp.GetSyncResult().GetSuccess() {
 		if c.metrics != nil {
 			c.metrics.totalErr.Inc(1, operation, group, c.node, c.remoteRole, c.remoteTier, "completion_error")
 		}
 		c.migErr(operation, group, "completion_error")
+		if finalResp == nil || finalResp.GetSyncResult() == nil {
+			return nil, fmt.Errorf("sync stream of session %s ended without a sync result", sessionID)
+		}
+		return nil, fmt.Errorf("receiver reported failure of sync session %s: %s", sessionID, finalResp.GetError())
 	}
 
+	if c.metrics != nil {
+		c.metrics.totalFinished.Inc(1, operation, group, c.node, c.remoteRole, c.remoteTier)
+		c.metrics.totalLatency.Observe(duration.Seconds(), operation, group, c.node, c.remoteRole, c.remoteTier)
+		c.metrics.sentBytes.Inc(float64(totalBytesSent), operation, group, c.node, c.remoteRole, c.remoteTier)
+	}
+	c.migFinished(operation, group, duration, totalBytesSent)
+
 	return &queue.SyncResult{
-		Success:     success,
+		Success:     true,
 		SessionID:   sessionID,
 		TotalBytes:  totalBytesSent,
 		DurationMs:  duration.Milliseconds(),
